@@ -1,12 +1,19 @@
 #!/bin/bash
 # review_mutants.sh [name-filter]: mutants proposed by the blind-spot reviewers (seeded/review/R-<prop>-<what>.patch).
-# Runs the quick check of the property in the file name against each and appends the verdict to seeded/review/RESULTS.txt
+# Runs the quick check of the property in the file name against each and records the verdict in seeded/review/RESULTS.txt
+# (several instances with different filters may run side by side)
 cd /verif
 for p in seeded/review/R-*${1:-}*.patch; do
   prop=$(basename $p | cut -d- -f2)
-  out=$(selftest/quick_seed.sh $PWD/$p $prop 2>&1)
-  if echo "$out" | grep -q "^VIOLATION property=$prop"; then verdict=caught; sig=$(echo "$out" | grep -m1 "signature:" | sed 's/.*signature: //'); else verdict=MISSED; sig=""; fi
-  grep -v "^$(basename $p) " seeded/review/RESULTS.txt 2>/dev/null > seeded/review/RESULTS.tmp; mv seeded/review/RESULTS.tmp seeded/review/RESULTS.txt
-  echo "$(basename $p) $prop $verdict $sig" | tee -a seeded/review/RESULTS.txt
+  if ! git -C /repo apply --check $PWD/$p 2>/dev/null; then verdict=NOAPPLY; sig=""
+  else
+    out=$(selftest/quick_seed.sh $PWD/$p $prop 2>&1)
+    if echo "$out" | grep -q "^VIOLATION property=$prop"; then verdict=caught; sig=$(echo "$out" | grep -m1 "signature:" | sed 's/.*signature: //'); else verdict=MISSED; sig=""; fi
+  fi
+  (
+    flock 9
+    grep -v "^$(basename $p) " seeded/review/RESULTS.txt 2>/dev/null > seeded/review/RESULTS.tmp; mv seeded/review/RESULTS.tmp seeded/review/RESULTS.txt
+    echo "$(basename $p) $prop $verdict $sig" | tee -a seeded/review/RESULTS.txt
+    sort -o seeded/review/RESULTS.txt seeded/review/RESULTS.txt
+  ) 9> seeded/review/.lock
 done
-sort -o seeded/review/RESULTS.txt seeded/review/RESULTS.txt
